@@ -13,7 +13,74 @@ CH = "src/channel.rs"
 CALLER = "src/addr/caller.rs"
 SENDER = "src/addr/sender.rs"
 WSENDER = "src/addr/weak_sender.rs"
+CTX = "src/context.rs"
 MUTANTS = [
+ {"name": "env_loop_future_keeps_own_addr", "why": "the loop future captures the actor's own Addr: the mailbox never closes when the last external handle is dropped, the actor never self-terminates", "expect": {"props": ["C05"], "obligation": "loop-future.captures-no-strong-handle-to-its-own-actor"},
+  "edits": [(ENV, "        let actor_loop = async move {\n            actor.started(&mut self.ctx).await?;\n\n            let timeout", "        let actor_loop = async move {\n            let _own_addr = &self.addr;\n            actor.started(&mut self.ctx).await?;\n\n            let timeout"), (ENV, "            Ok(actor)\n        };\n\n        (actor_loop, self.addr)\n    }\n\n    pub fn create_loop_on_stream", "            Ok(actor)\n        };\n\n        let addr = self.addr.clone();\n        (actor_loop, addr)\n    }\n\n    pub fn create_loop_on_stream")]},
+ {"name": "ctx_drop_does_not_abort", "why": "Context::drop forgets the timers: interval tasks of a dead actor are leaked", "expect": {"props": ["C06", "C10"], "obligation": "ctx.drop-aborts-every-timer"},
+  "edits": [(CTX, "impl<A> Drop for Context<A> {\n    fn drop(&mut self) {\n        for task in self.tasks.drain(..) {\n            task.abort();\n        }", "impl<A> Drop for Context<A> {\n    fn drop(&mut self) {\n        self.tasks.clear();")]},
+ {"name": "ctx_abort_tasks_keeps_last", "why": "abort_tasks leaves one timer of the old incarnation running", "expect": {"props": ["C07"], "obligation": "ctx.abort-tasks-aborts-every-timer-of-the-incarnation"},
+  "edits": [(CTX, "    pub(crate) fn abort_tasks(&mut self) {\n        for task in self.tasks.drain(..) {\n            task.abort();\n        }", "    pub(crate) fn abort_tasks(&mut self) {\n        let keep = self.tasks.pop();\n        for task in self.tasks.drain(..) {\n            task.abort();\n        }\n        if let Some(k) = keep {\n            self.tasks.push(k);\n        }")]},
+ {"name": "ctx_interval_submit_then_sleep", "why": "interval delivers first and sleeps afterwards: the first tick comes immediately", "expect": {"props": ["C10"], "obligation": "timer.interval-inv-pattern"},
+  "edits": [(CTX, """                loop {
+                    A::sleep(duration).await;
+                    if myself.try_force_send(message.clone()).is_err() {
+                        break;
+                    }
+                }""", """                loop {
+                    if myself.try_force_send(message.clone()).is_err() {
+                        break;
+                    }
+                    A::sleep(duration).await;
+                }""")]},
+ {"name": "ctx_interval_ignores_dead_actor", "why": "the interval loop never ends when the actor is gone: leaked timer task", "expect": {"props": ["C10"], "obligation": "timer.interval-inv-pattern"},
+  "edits": [(CTX, """                    if myself.try_force_send(message.clone()).is_err() {
+                        break;
+                    }
+                }
+            })
+        }
+
+        /// Send yourself a message at a regular interval.
+        pub fn interval_with""", """                    let _ = myself.try_force_send(message.clone());
+                }
+            })
+        }
+
+        /// Send yourself a message at a regular interval.
+        pub fn interval_with""")]},
+ {"name": "ctx_timer_holds_strong_sender", "why": "the interval task holds an upgraded (strong) Sender: the timer keeps its actor alive forever", "expect": {"props": ["C05", "C10"], "obligation": "ctx.timer-task-holds-no-strong-handle-to-its-actor"},
+  "edits": [(CTX, """            let myself = self.weak_sender();
+            self.spawn_task(async move {
+                loop {
+                    A::sleep(duration).await;
+                    if myself.try_force_send(message.clone()).is_err() {""", """            let myself = self.weak_sender();
+            let strong = myself.upgrade();
+            self.spawn_task(async move {
+                let _keep = &strong;
+                loop {
+                    A::sleep(duration).await;
+                    if myself.try_force_send(message.clone()).is_err() {""")]},
+ {"name": "ctx_spawn_task_without_abort_handle", "why": "spawn_task does not register the abort handle: the timer survives the actor", "expect": {"props": ["C10", "C06"], "obligation": "ctx.spawn-task-registers-one-abort-handle"},
+  "edits": [(CTX, "            self.tasks.push(handle);\n", "            drop(handle);\n")]},
+ {"name": "ctx_children_registered_under_wrong_key", "why": "register_child files the child under the unit type: send_to_children::<M> never reaches it", "expect": {"props": ["C16"], "obligation": "ctx.register-child-appends-under-its-message-type"},
+  "edits": [(CTX, "            .entry(TypeId::of::<M>())\n            .or_default()\n            .push(Box::new(child.into()));", "            .entry(TypeId::of::<()>())\n            .or_default()\n            .push(Box::new(child.into()));")]},
+ {"name": "ctx_broadcast_stops_at_first_failure", "why": "send_to_children gives up at the first child that is gone", "expect": {"props": ["C16"], "obligation": "ctx.broadcast-inv"},
+  "edits": [(CTX, """                if let Err(error) = child.force_send(message.clone()) {
+                    log::error!("Failed to send message to child: {}", error);
+                }""", """                if let Err(error) = child.force_send(message.clone()) {
+                    log::error!("Failed to send message to child: {}", error);
+                    return;
+                }""")]},
+ {"name": "ctx_broadcast_twice", "why": "every child gets the broadcast twice", "expect": {"props": ["C16"], "obligation": "ctx.broadcast-inv"},
+  "edits": [(CTX, """                if let Err(error) = child.force_send(message.clone()) {
+                    log::error!("Failed to send message to child: {}", error);
+                }""", """                let _ = child.force_send(message.clone());
+                if let Err(error) = child.force_send(message.clone()) {
+                    log::error!("Failed to send message to child: {}", error);
+                }""")]},
+ {"name": "ctx_stop_through_waiting_link", "why": "Context::stop upgrades the waiting link only... (uses weak_tx presence as liveness test): with a Sender-less Caller alive it reports AlreadyStopped", "expect": {"green": True, "props": ["C04"]},
+  "edits": [(CTX, "    pub fn stop(&self) -> Result<()> {\n        if let Some(tx) = self.weak_force_tx.upgrade() {\n            Ok(tx.send(Payload::Stop)?)", "    pub fn stop(&self) -> Result<()> {\n        let upgraded = self.weak_force_tx.upgrade();\n        if let Some(tx) = upgraded {\n            Ok(tx.send(Payload::Stop)?)")]},
  {"name": "h_caller_drops_force_closure", "why": "the C15 defect: the call closure no longer holds the forcing closure", "expect": {"props": ["C15"], "obligation": "caller.new-owns-both-submit-closures"},
   "edits": [(CALLER, "                // a caller is a strong handle: it keeps both halves of the channel alive\n                let _force_tx = &force_tx;\n", "")]},
  {"name": "h_sender_upgrade_closure_holds_strong", "why": "the upgrade closure of a Sender (copied into every WeakSender) holds a strong Arc: a WeakSender keeps the actor alive", "expect": {"props": ["C05"], "obligation": "sender.downgrade-is-weak"},
